@@ -54,6 +54,12 @@ CHECKS.update({
                 note="Declined, loudly: the NumPy-model equivalence of append/update/filtered/sliced/reindexed/collapsed/column_stack over operation histories is a statement about values and histories that no static argument in reach decides; e.g. collapsed() returning a value absent from the row when the precedence omits a present value is NOT detectable here.", ref="4 C06"),
 })
 
+CHECKS.update({
+    "C07": dict(cat="other", technique="row-id typestate over every entries-dict store site (sorted/unique, non-empty, dtype, provenance) from term shape, dominating guards and repository idioms; key-vs-common dominance rule; event-order rule for update",
+                text="Well-formedness is an invariant of every store into an entries dict; the analysis enumerates all such store sites of iindex, column_stack and IndxIO.load (callees inlined) and shows, per alternative value and path, that the stored array is strictly increasing, non-empty, uint32, of an accepted provenance (range/exclusivity), and that its key cannot equal the final common value of the index being built. Assume-guarantee: entries read from existing indexes are well-formed (the induction hypothesis); what is stored must be re-established. Exhaustive over the store sites of the current tree.",
+                note="Assumed and recorded in the evidence: caller-supplied partial entries of update/union_update/intersection_update/difference_update/set_if meet their documented preconditions; assume_unique=True is the caller's promise; an INDX file being loaded was saved from a well-formed index. Range and exclusivity are decided by a table of accepted provenances (one line of reason each), not by arithmetic. Trusted: the row-id transfer table in sa/rowids.py.", ref="4 C07"),
+})
+
 NA_REASON = "check not built yet (build in progress; see DESIGN.md section 8)"
 
 
